@@ -11,7 +11,7 @@ import random
 
 from harness.common import Check, canon
 from harness import sessions_check as S
-from harness.gen_sessions import random_session, latin_session
+from harness.gen_sessions import random_session, latin_session, wide_sum_session
 
 PID = "C01"
 CALLS = ("find_answer",)
@@ -61,6 +61,9 @@ def scenarios(chk, tier, seed, calls):
         for limit in (None, 0.001):
             for _ in range(3 if tier == "quick" else 8):
                 out.append(("W", latin_session(rng, n, calls if n <= 5 else ("find_answer",), limit)))
+    # scale-up: sums with 17 .. 300 operands
+    for n in ((17, 33, 129, 130, 257) if tier == "quick" else (17, 33, 65, 129, 130, 150, 200, 257, 300)):
+        out.append(("W", wide_sum_session(rng, n, calls)))
     return out
 
 
